@@ -135,18 +135,72 @@ def rangeOf : Option Rat → Option Rat → Rat
   | some l, some h => h - l
   | _, _ => 1
 
-/-- `scalings` entry-wise -/
-theorem scalings_spec (ms : List Int) (los his : List (Option Rat)) {i : Nat} (hi : i < ms.length) :
-    getV (scalings ms los his) i =
+/-- `scalingsAll` (the scalings of `assert_constraints`) entry-wise -/
+theorem scalingsAll_spec (ms : List Int) (los his : List (Option Rat)) {i : Nat} (hi : i < ms.length) :
+    getV (scalingsAll ms los his) i =
       (if getM ms i = -1 then -1 else 1) * rangeOf (getO los i) (getO his i) := by
   induction ms generalizing los his i with
   | nil => simp at hi
   | cons m ms ih => cases i with
     | zero =>
       rcases los with _ | ⟨_ | l, ls⟩ <;> rcases his with _ | ⟨_ | h, hs⟩ <;>
-        simp [scalings, getV, getM, getO, rangeOf]
+        simp [scalingsAll, getV, getM, getO, rangeOf]
     | succ i =>
       have := ih los.tail his.tail (i := i) (by simpa using hi)
-      simpa [scalings, getV, getM, getO_tail] using this
+      simpa [scalingsAll, getV, getM, getO_tail] using this
+
+theorem scalingsFrom_length (rd : Pairs) (ms : List Int) : ∀ (k : Nat) (los his : List (Option Rat)),
+    (scalingsFrom rd k ms los his).length = ms.length := by
+  induction ms with
+  | nil => intro k los his; rfl
+  | cons m ms ih => intro k los his; simp [scalingsFrom, ih]
+
+theorem scalings_length (ms : List Int) (rd : Pairs) (los his : List (Option Rat)) :
+    (scalings ms rd los his).length = ms.length := scalingsFrom_length rd ms 0 los his
+
+theorem scalingsFrom_spec (rd : Pairs) (ms : List Int) : ∀ (k : Nat) (los his : List (Option Rat)) {i : Nat},
+    i < ms.length →
+    getV (scalingsFrom rd k ms los his) i =
+      (if getM ms i = -1 then -1 else 1) *
+        (if inPairs rd (k + i) then rangeOf (getO los i) (getO his i) else 1) := by
+  induction ms with
+  | nil => intro k los his i hi; simp at hi
+  | cons m ms ih =>
+    intro k los his i hi
+    cases i with
+    | zero =>
+      rcases los with _ | ⟨_ | l, ls⟩ <;> rcases his with _ | ⟨_ | h, hs⟩ <;>
+        simp [scalingsFrom, getV, getM, getO, rangeOf]
+    | succ i =>
+      have := ih (k + 1) los.tail his.tail (i := i) (by simpa using hi)
+      have e : k + 1 + i = k + (i + 1) := by omega
+      rw [e] at this
+      simpa [scalingsFrom, getV, getM, getO_tail] using this
+
+/-- `scalings` (the scalings of `project`, fix 44c9e89) entry-wise: the range only on the dimensions
+of the range-dominance pairs -/
+theorem scalings_spec (ms : List Int) (rd : Pairs) (los his : List (Option Rat)) {i : Nat} (hi : i < ms.length) :
+    getV (scalings ms rd los his) i =
+      (if getM ms i = -1 then -1 else 1) *
+        (if inPairs rd i then rangeOf (getO los i) (getO his i) else 1) := by
+  have := scalingsFrom_spec rd ms 0 los his hi
+  simpa [scalings] using this
+
+theorem inPairs_of_mem {rd : Pairs} {c : Nat × Nat} (hc : c ∈ rd) : inPairs rd c.1 = true ∧ inPairs rd c.2 = true := by
+  simp only [inPairs, List.any_eq_true, Bool.or_eq_true, beq_iff_eq]
+  exact ⟨⟨c, hc, Or.inl rfl⟩, ⟨c, hc, Or.inr rfl⟩⟩
+
+/-- on the dimensions of the range-dominance pairs `project` and `assert_constraints` use the same
+scalings -/
+theorem scalings_eq_all (ms : List Int) (rd : Pairs) (los his : List (Option Rat)) {i : Nat}
+    (hi : i < ms.length) (hp : inPairs rd i = true) :
+    getV (scalings ms rd los his) i = getV (scalingsAll ms los his) i := by
+  rw [scalings_spec ms rd los his hi, scalingsAll_spec ms los his hi, hp]; simp
+
+/-- a dimension outside every range-dominance pair is scaled by `±1` -/
+theorem scalings_outside (ms : List Int) (rd : Pairs) (los his : List (Option Rat)) {i : Nat}
+    (hi : i < ms.length) (hp : inPairs rd i = false) :
+    getV (scalings ms rd los his) i = (if getM ms i = -1 then -1 else 1) := by
+  rw [scalings_spec ms rd los his hi, hp]; simp
 
 end Tfl.Linear
